@@ -5,6 +5,7 @@ import (
 	"errors"
 	"fmt"
 	"math/rand/v2"
+	"strings"
 	"time"
 
 	"github.com/bool64/cache"
@@ -305,6 +306,36 @@ func (r *foRun) oracleC04() {
 					out.probe("ctx_cancelled_with_background_build")
 				}
 			}
+		}
+	}
+
+	// R5: a rejected backend call is not a builder failure: its error may reach the Gets that were
+	// in flight when it happened, but a Get invoked afterwards (with no build in flight for the key)
+	// must be able to build again and cannot be answered with that old error.
+	for _, o := range r.ops {
+		var et ErrTok
+		if !o.done || o.err == nil || !errors.As(o.err, &et) || !strings.HasPrefix(et.ID, "be-") {
+			continue
+		}
+
+		for _, c := range r.calls {
+			if !c.injected || c.err != error(et) {
+				continue
+			}
+
+			quiet := c.retSeq < o.inv && !containsStr(o.locksAtInvoke, o.key)
+
+			for _, p := range r.ops {
+				if p != o && p.key == o.key && p.inv < o.inv && (!p.done || p.ret > o.inv) {
+					quiet = false // another Get for the key was still in flight: o may have waited for it
+				}
+			}
+
+			if quiet {
+				out.violate("C04.R5", "old-backend-error-served", "%s Get(%q) returned %v, the error of a backend %s that was rejected before this Get was invoked (no Get or build for the key was in flight then): a backend rejection must not keep the key from being rebuilt", o.id(), o.key, o.err, c.kind)
+			}
+
+			out.probe("backend_error_reached_a_get")
 		}
 	}
 
@@ -679,9 +710,49 @@ func genC06Shared(r *rand.Rand) *Scenario {
 	return sc
 }
 
+// genC06Equal: the source has not changed, every rebuild returns a value equal to the stale one
+// (with and without ObserveMutability); the final store and its TTL are due all the same.
+func genC06Equal(r *rand.Rand) *Scenario {
+	sc := genFOBase(r, foShape{minClients: 1, maxClients: 3, maxKeys: 2, maxOps: 3, sleeps: true, skipRead: true, ctxTTL: true})
+	fo := sc.FO
+	fo.BackendJitter = -1
+	fo.Faults = FOFaults{}
+	fo.Cfg.Stats = true
+	fo.Cfg.ObserveMutability = chance(r, 0.7)
+
+	for i := range fo.Init {
+		fo.Init[i].FailAgeNs = -1
+
+		if chance(r, 0.8) {
+			fo.Init[i].State, fo.Init[i].AgeNs = "stale", pick(r, ms, sec)
+		}
+	}
+
+	for c := range fo.Clients {
+		for i := range fo.Clients[c] {
+			op := &fo.Clients[c][i]
+			if op.Kind != "get" {
+				continue
+			}
+
+			op.BuildEqual, op.BuildFail, op.Cancel = true, false, ""
+
+			if chance(r, 0.6) {
+				op.HasCtxTTL, op.CtxTTLNs = true, pick(r, sec, 30*sec, 3600*sec, 24*3600*sec)
+			}
+		}
+	}
+
+	return sc
+}
+
 func genC06(r *rand.Rand, run int, _ string) *Scenario {
 	if run%6 == 5 {
 		return genC06Shared(r)
+	}
+
+	if run%6 == 4 {
+		return genC06Equal(r)
 	}
 
 	sc := genFOBase(r, foShape{minClients: 1, maxClients: 3, maxKeys: 2, maxOps: 3, sleeps: true, skipRead: true, ctxTTL: true, callerTricks: false})
@@ -767,14 +838,26 @@ func (r *foRun) oracleC06() {
 
 		if !b.fail {
 			// R1: final store TTL.
+			stored := r.sc.DefaultBackend
+
 			for _, c := range r.calls {
 				if c.kind == "write" && c.task == b.task && c.seq > b.exit && c.val == interface{}(b.tok) {
+					stored = true
+
 					if c.ttlNs != want {
 						out.violate("C06.R1", fmt.Sprintf("final-store-ttl ctx=%v builder=%v", ttlClass(op), buildTTLClass(op)), "%s: built value stored with TTL %v, expected %v (caller ctx TTL %s, builder WithTTL calls %v)", b.op.id(), dur(c.ttlNs), dur(want), ttlClass(op), op.BuildTTLs)
 					}
 
 					break
 				}
+			}
+
+			if !stored {
+				out.violate("C06.R1", "final-store-missing", "%s: the builder returned %v but the value was not stored afterwards: the entry keeps whatever TTL it had (equal to the stale value: %v)", b.op.id(), b.tok, op.BuildEqual)
+			}
+
+			if op.BuildEqual {
+				out.probe("rebuilt_value_equal_to_stale_one")
 			}
 		}
 
